@@ -8,7 +8,9 @@ every SQL clause; deciding comparison on a quiescent store, through both the sub
 """
 import collections
 
-from .. import histgen, model, qcommon
+from .. import histgen, model, qcommon, evgen
+
+T0 = histgen.T0
 from ..worlds import store
 
 ID = "C02"
@@ -59,6 +61,18 @@ def gen(rng, knobs):
             h.ops.append([rng.choice(["sub", "sub", "query"]), fs])
         else:
             h.ops.append(["sub", [rng.choice([{}, {"limit": 100}, {"since": 0}])]])
+    if rng.random() < 0.05:
+        # a large result streamed while matching events are added and one is deleted
+        n = rng.randint(110, 230)
+        big = [h.regular(author=i % 2, kind=9999, tags=[], created_at=T0 - 9000 + i) for i in range(n)]
+        for e in big:
+            h.add(e)
+        victim = big[-1 - rng.randrange(3)]
+        writes = [h.regular(author=0, kind=9999, tags=[], created_at=T0 - 10 + i) for i in range(rng.randint(1, 2))]
+        writes.append(h.deletion(author=[k.pub for k in evgen.AUTHORS].index(victim["pubkey"]), targets=[victim["id"]],
+                                 created_at=T0 - 1))
+        rng.shuffle(writes)
+        h.ops.append(["csub", [{"kinds": [9999]}], writes])
     return {"backend": backend, "ops": h.ops}
 
 
@@ -82,6 +96,25 @@ def check(obs, backend, max_limit):
     nontrivial = False
     for o in obs:
         kind = o["op"][0]
+        if kind == "csub" and "post" in o and o["res"][0] == "ok":
+            # the stored query overlapped with writes: what was stored before it started and stayed stored in
+            # every durable state until it ended is owed, exactly once (no limit in these filters)
+            f = o["op"][1][0]
+            states = [o["pre"]] + list(o.get("during", [])) + [o["post"]]
+            owed = [i for i, e in o["pre"].items() if all(i in d for d in states) and model.matches(e, f, "strict")]
+            got = collections.Counter(e["id"] for e in o["res"][1])
+            probes["concurrent_queries"] += 1
+            nontrivial = True
+            miss = [i for i in owed if got[i] == 0]
+            if miss:
+                viol.append({"cls": "missing", "sig": "missing|%s|concurrent-writes|%s" % (backend, qcommon.filter_shape(f)),
+                             "detail": {"filter": f, "owed": len(owed), "missing": [m[:8] for m in miss[:5]],
+                                        "returned": len(o["res"][1]), "writes": o.get("writes")}})
+            dup = [i for i in o["pre"] if got[i] > 1]
+            if dup:
+                viol.append({"cls": "duplicate", "sig": "duplicate|%s|concurrent-writes|%s" % (backend, qcommon.filter_shape(f)),
+                             "detail": {"filter": f, "id": dup[0][:8], "times": got[dup[0]]}})
+            continue
         if kind not in ("sub", "query"):
             continue
         filters = o["op"][1]
@@ -138,7 +171,7 @@ def check(obs, backend, max_limit):
 
 def run(case, sim):
     backend = case["backend"]
-    w = store.StoreWorld(sim, backend)
+    w = store.StoreWorld(sim, backend, track_states=True)
     cur = {}
 
     def on_op(o):
